@@ -41,6 +41,9 @@ func UnevalSchema(r *rand.Rand) (doc map[string]any, array bool) {
 		}
 		root["$defs"] = defs
 	}
+	if r.IntN(8) == 0 {
+		ForeignKeywords(r, root, D2020, UNames) // draft-07 keywords are unknown keywords here: no assertions, no annotations
+	}
 	return root, g.array
 }
 
